@@ -78,7 +78,7 @@ def bdagger(b):
 
 def scans(spec):
     """ List of wire lists before each layer, plus the final one. """
-    scan, out = [list(x) for x in spec["dom"]], []
+    scan, out = [_o(x) for x in spec["dom"]], []
     for b, off in spec["layers"]:
         out.append(scan)
         d = bdom(b)
@@ -111,7 +111,7 @@ def spec_tensor(a, b):
 
 
 def spec_id(cls, t):
-    return dict(cls=cls, dom=[list(x) for x in t], layers=[])
+    return dict(cls=cls, dom=[_o(x) for x in t], layers=[])
 
 
 def arities(spec):
@@ -219,6 +219,8 @@ def build(spec, route="ctor"):
 
 def tkey(t):
     """ Key of a library type: tuple of (name, z), by reading `.objects`. """
+    if t is None:
+        return (("<None>", 0),)
     if not hasattr(t, "objects"):
         return ((t.name, 0),)
     return tuple((_okey(o)) for o in t.objects)
